@@ -1,5 +1,6 @@
 import Hidi.Basic
 import Hidi.Float
 import Hidi.Engine
+import Hidi.Spec
 import Hidi.Proto
 import Hidi.DevEngine
